@@ -458,15 +458,27 @@ Qed.
 
 Lemma zero_buffer_sum : forall tsize ssize sval ml cs u, Forall aligned_m ml ->
   all_some (map (fun m => contrib tsize (ssize m) m (sval m)) ml) = Some cs ->
-  qsum (map (fun a => match lookup a u with Some v => v | None => 0 end) cs) = msum ml sval u.
+  buffers_sum cs u = msum ml sval u.
 Proof.
-  induction ml as [|m ml IH]; intros cs u HA H.
+  unfold buffers_sum. induction ml as [|m ml IH]; intros cs u HA H.
   - cbn in H. inversion H. reflexivity.
   - cbn [map] in H. apply all_some_cons in H as (a & r' & H1 & H2 & ->).
     inversion HA as [|? ? Hm Hml]; subst. cbn [map qsum msum].
     rewrite (contrib_is_edge_sum _ _ _ _ _ u Hm H1). rewrite (IH _ _ Hml H2). f_equal.
     destruct (mem u (mt m)) eqn:E; [reflexivity|].
     symmetry. apply tsum_notin. unfold mtriples. rewrite zip3_targets by apply Hm. apply mem_false. exact E.
+Qed.
+
+(* the units covered by some target_idx list are the units some merged edge list reaches *)
+Lemma assigned_hits : forall tsize ssize sval ml cs u, Forall aligned_m ml ->
+  all_some (map (fun m => contrib tsize (ssize m) m (sval m)) ml) = Some cs ->
+  existsb (assigned u) cs = existsb (hits u) ml.
+Proof.
+  induction ml as [|m ml IH]; intros cs u HA H.
+  - cbn in H. inversion H. reflexivity.
+  - cbn [map] in H. apply all_some_cons in H as (a & r' & H1 & H2 & ->).
+    inversion HA as [|? ? Hm Hml]; subst. cbn [existsb]. rewrite (IH _ _ Hml H2). f_equal.
+    unfold assigned, hits. rewrite (contrib_is_edge_sum _ _ _ _ _ u Hm H1). destruct (mem u (mt m)); reflexivity.
 Qed.
 
 Lemma msum_nohit : forall ml sval u, Forall aligned_m ml -> existsb (hits u) ml = false -> msum ml sval u = 0.
@@ -477,42 +489,65 @@ Proof.
   unfold mtriples. rewrite zip3_targets by apply Hm. apply mem_false. exact H1.
 Qed.
 
-(* Input of target unit u of a vector node, from the merged per-source lists `ml`:
-   - if some edge reaches u: the sum over ALL merged edge lists of w * source value      (dot/indexed choice, `+` of buffers)
-   - otherwise the declared default, PROVIDED there are fewer than two source vector nodes or the default is 0 *)
+Lemma two_or_more : forall tsize ssize sval (m1 m2 : mrg) ml cs,
+  all_some (map (fun m => contrib tsize (ssize m) m (sval m)) (m1 :: m2 :: ml)) = Some cs ->
+  exists a b cs', cs = a :: b :: cs'.
+Proof.
+  intros. cbn [map] in H. apply all_some_cons in H as (a & r' & _ & H2 & ->).
+  apply all_some_cons in H2 as (b & r'' & _ & _ & ->). eauto.
+Qed.
+
+(* Input of target unit u of a vector node, from the merged per-source lists `ml` (code as it is now, D57 included):
+   if some edge reaches u: the sum over ALL merged edge lists of w * source value (dot/indexed choice, `+` of buffers);
+   otherwise the declared default — for any number of source vector nodes, no guard. *)
 Theorem input_is_edge_sum : forall tsize ssize sval ml cs rdef u, Forall aligned_m ml ->
   all_some (map (fun m => contrib tsize (ssize m) m (sval m)) ml) = Some cs ->
-  ((length ml < 2)%nat \/ rdef = 0 \/ existsb (hits u) ml = true) ->
   input_of cs rdef u = if existsb (hits u) ml then msum ml sval u else rdef.
 Proof.
-  intros tsize ssize sval ml cs rdef u HA H G.
+  intros tsize ssize sval ml cs rdef u HA H.
   destruct ml as [|m1 [|m2 ml]].
   - cbn in H. inversion H. reflexivity.
   - cbn [map] in H. apply all_some_cons in H as (a & r' & H1 & H2 & ->). cbn in H2. inversion H2; subst.
     inversion HA as [|? ? Hm _]; subst. cbn [input_of existsb msum hits].
     rewrite (contrib_is_edge_sum _ _ _ _ _ u Hm H1). rewrite orb_false_r.
     unfold hits. destruct (mem u (mt m1)); [ring|reflexivity].
-  - assert (L : exists a b cs', cs = a :: b :: cs').
-    { cbn [map] in H. apply all_some_cons in H as (a & r' & _ & H2 & ->).
-      apply all_some_cons in H2 as (b & r'' & _ & _ & ->). eauto. }
-    destruct L as (a & b & cs' & ->). cbn [input_of].
+  - destruct (two_or_more _ _ _ _ _ _ _ H) as (a & b & cs' & ->). cbn [input_of].
+    rewrite (zero_buffer_sum _ _ _ _ _ u HA H). rewrite (assigned_hits _ _ _ _ _ u HA H).
+    destruct (existsb (hits u) (m1 :: m2 :: ml)) eqn:E; [ring|].
+    rewrite msum_nohit by assumption. ring.
+Qed.
+
+(* ---- before fix D57 (D14): kept as a record of what the repair changed ---- *)
+Definition default_survives_at (ml : list mrg) (rdef : Qc) (u : nat) : bool :=
+  (length ml <? 2)%nat || Qc_eqb rdef 0 || existsb (hits u) ml.
+
+Theorem input_partial_before_D57 : forall tsize ssize sval ml cs rdef u, Forall aligned_m ml ->
+  all_some (map (fun m => contrib tsize (ssize m) m (sval m)) ml) = Some cs ->
+  default_survives_at ml rdef u = true ->
+  input_of_before_D57 cs rdef u = if existsb (hits u) ml then msum ml sval u else rdef.
+Proof.
+  intros tsize ssize sval ml cs rdef u HA H G.
+  destruct ml as [|m1 [|m2 ml]].
+  - cbn in H. inversion H. reflexivity.
+  - cbn [map] in H. apply all_some_cons in H as (a & r' & H1 & H2 & ->). cbn in H2. inversion H2; subst.
+    inversion HA as [|? ? Hm _]; subst. cbn [input_of_before_D57 existsb msum hits].
+    rewrite (contrib_is_edge_sum _ _ _ _ _ u Hm H1). rewrite orb_false_r.
+    unfold hits. destruct (mem u (mt m1)); [ring|reflexivity].
+  - destruct (two_or_more _ _ _ _ _ _ _ H) as (a & b & cs' & ->). cbn [input_of_before_D57].
     rewrite (zero_buffer_sum _ _ _ _ _ u HA H).
     destruct (existsb (hits u) (m1 :: m2 :: ml)) eqn:E; [reflexivity|].
     rewrite msum_nohit by assumption.
-    destruct G as [G|[G|G]]; [cbn in G; lia|symmetry; exact G|discriminate].
+    unfold default_survives_at in G. rewrite E, orb_false_r in G. cbn [length Nat.ltb Nat.leb orb] in G.
+    apply Qc_eqb_eq in G. symmetry. exact G.
 Qed.
 
-(* D14: with two or more source vector nodes an unconnected unit gets 0, whatever its default *)
-Theorem unconnected_unit_gets_zero : forall tsize ssize sval ml cs rdef u, Forall aligned_m ml ->
+Theorem unconnected_unit_gets_zero_before_D57 : forall tsize ssize sval ml cs rdef u, Forall aligned_m ml ->
   all_some (map (fun m => contrib tsize (ssize m) m (sval m)) ml) = Some cs ->
-  (2 <= length ml)%nat -> existsb (hits u) ml = false -> input_of cs rdef u = 0.
+  (2 <= length ml)%nat -> existsb (hits u) ml = false -> input_of_before_D57 cs rdef u = 0.
 Proof.
   intros tsize ssize sval ml cs rdef u HA H L E.
   destruct ml as [|m1 [|m2 ml]]; [cbn in L; lia|cbn in L; lia|].
-  assert (X : exists a b cs', cs = a :: b :: cs').
-  { cbn [map] in H. apply all_some_cons in H as (a & r' & _ & H2 & ->).
-    apply all_some_cons in H2 as (b & r'' & _ & _ & ->). eauto. }
-  destruct X as (a & b & cs' & ->). cbn [input_of].
+  destruct (two_or_more _ _ _ _ _ _ _ H) as (a & b & cs' & ->). cbn [input_of_before_D57].
   rewrite (zero_buffer_sum _ _ _ _ _ u HA H). apply msum_nohit; assumption.
 Qed.
 
@@ -537,22 +572,6 @@ Lemma collapse_unequal_refuted : exists l i, (i < length l)%nat /\ bget (CScalar
 Proof.
   exists [mkq 1 2; mkq 2 1], 1%nat. split; [cbn; lia|]. cbn [bget hd nth]. intros H.
   apply (f_equal (fun v => Qc_eqb v (mkq 2 1))) in H. vm_compute in H. discriminate.
-Qed.
-
-(* ------------------------------------------------------------------------------------------ 7. composed statement at the level of one target unit *)
-Definition default_survives_at (ml : list mrg) (rdef : Qc) (u : nat) : bool :=
-  (length ml <? 2)%nat || Qc_eqb rdef 0 || existsb (hits u) ml.
-
-Theorem input_partial : forall tsize ssize sval ml cs rdef u, Forall aligned_m ml ->
-  all_some (map (fun m => contrib tsize (ssize m) m (sval m)) ml) = Some cs ->
-  default_survives_at ml rdef u = true ->
-  input_of cs rdef u = if existsb (hits u) ml then msum ml sval u else rdef.
-Proof.
-  intros tsize ssize sval ml cs rdef u HA H G. apply (input_is_edge_sum tsize ssize sval ml cs rdef u HA H).
-  unfold default_survives_at in G. apply orb_true_iff in G as [G|G]; [apply orb_true_iff in G as [G|G]|].
-  - left. apply Nat.ltb_lt. exact G.
-  - right. left. apply Qc_eqb_eq. exact G.
-  - right. right. exact G.
 Qed.
 
 (* ------------------------------------------------------------------------------------------ 8. whole-circuit witnesses *)
@@ -598,13 +617,15 @@ Definition w_d14 : circuit :=
        [Edge 3 0 (Some (q 2)) false; Edge 4 1 (Some (q 3)) false].
 Definition st_d14 : list Qc := [q 1; q 2; q 3; mkq 1 2; q (-1)].
 
-Lemma refuted_default :
+Lemma refuted_default_before_D57 :
   wf w_d14 = true /\ no_constant_rhs w_d14 = true /\ single_source_var w_d14 = true /\ no_scalar_fanout w_d14 = true /\
   default_survives w_d14 = false /\
-  impl false w_d14 st_d14 = Some (spec w_d14 st_d14) /\
-  impl true w_d14 st_d14 <> Some (spec w_d14 st_d14) /\
-  (* the unconnected node 2: 7 - 3 = 4 by the edge list, 0 - 3 = -3 vectorized *)
-  nth 2 (spec w_d14 st_d14) 0 = q 4 /\ impl true w_d14 st_d14 = Some [q 0; q (-5); q (-3); mkq (-1) 2; q 2].
+  impl_before_D57 false w_d14 st_d14 = Some (spec w_d14 st_d14) /\
+  impl_before_D57 true w_d14 st_d14 <> Some (spec w_d14 st_d14) /\
+  (* the unconnected node 2: 7 - 3 = 4 by the edge list, 0 - 3 = -3 vectorized before D57 *)
+  nth 2 (spec w_d14 st_d14) 0 = q 4 /\ impl_before_D57 true w_d14 st_d14 = Some [q 0; q (-5); q (-3); mkq (-1) 2; q 2] /\
+  (* the repaired mechanism agrees with the edge list on the same input *)
+  guard w_d14 = true /\ impl true w_d14 st_d14 = Some (spec w_d14 st_d14).
 Proof. witness. Qed.
 
 (* D3 (corpus/C04/D03_two_source_vars.json): n0/x and n1/m of one class into n2/r *)
@@ -613,7 +634,7 @@ Definition w_d03 : circuit :=
 Definition st_d03 : list Qc := [q 1; q 2; q 5].
 
 Lemma refuted_source_var :
-  wf w_d03 = true /\ default_survives w_d03 = true /\ no_constant_rhs w_d03 = true /\ no_scalar_fanout w_d03 = true /\
+  wf w_d03 = true /\ no_constant_rhs w_d03 = true /\ no_scalar_fanout w_d03 = true /\
   single_source_var w_d03 = false /\
   impl false w_d03 st_d03 = Some (spec w_d03 st_d03) /\ impl true w_d03 st_d03 <> Some (spec w_d03 st_d03).
 Proof. witness. Qed.
@@ -642,13 +663,12 @@ Definition full_statement : Prop := forall c st, wf c = true -> length st = leng
 
 Lemma full_statement_refuted : ~ full_statement.
 Proof.
-  intros F. destruct (F w_d14 st_d14) as [H _]; [vm_compute; reflexivity|reflexivity|].
-  destruct refuted_default as (_ & _ & _ & _ & _ & _ & N & _). exact (N H).
+  intros F. destruct (F w_d03 st_d03) as [H _]; [vm_compute; reflexivity|reflexivity|].
+  destruct refuted_source_var as (_ & _ & _ & _ & _ & N). exact (N H).
 Qed.
 
-(* the end-to-end statement under the guards (NOT proved here: the merge of the per-unit theorems above with the
-   regrouping of the edge list by (source class, target class) is not mechanised; every generated circuit that
-   satisfies the guards is checked against it by the correspondence run) *)
+(* the end-to-end statement under the guards.  Proved below (section 11) up to the two loud classes: `impl_sound`
+   (whenever Impl does not raise it equals Spec, under wf and single_source_var) and `guarded_from_no_err`. *)
 Definition guarded_statement : Prop := forall c st, wf c = true -> guard c = true -> length st = length (cnodes c) ->
   impl true c st = Some (spec c st) /\ impl false c st = Some (spec c st).
 
@@ -665,3 +685,470 @@ Lemma nonvacuous :
   impl true w_ok st_ok = Some (spec w_ok st_ok) /\ impl false w_ok st_ok = Some (spec w_ok st_ok) /\
   spec w_ok st_ok = [mkq (-1) 4; q (-2); q 3; mkq 49 4; q 1].
 Proof. witness. Qed.
+
+
+(* ------------------------------------------------------------------------------------------ 9. composition: sums over a commutative monoid *)
+Section Monoid.
+  Variable M : Type.
+  Variable op : M -> M -> M.
+  Variable e0 : M.
+  Hypothesis op_assoc : forall a b c, op a (op b c) = op (op a b) c.
+  Hypothesis op_comm : forall a b, op a b = op b a.
+  Hypothesis op_e_l : forall a, op e0 a = a.
+
+  Fixpoint gsum {A} (f : A -> M) (l : list A) : M := match l with [] => e0 | x :: l' => op (f x) (gsum f l') end.
+
+  Lemma op_e_r : forall a, op a e0 = a.
+  Proof. intros. rewrite op_comm. apply op_e_l. Qed.
+
+  Lemma gsum_app : forall {A} (f : A -> M) l1 l2, gsum f (l1 ++ l2) = op (gsum f l1) (gsum f l2).
+  Proof. induction l1; intros; cbn [app gsum]; [rewrite op_e_l; reflexivity|]. rewrite IHl1, op_assoc. reflexivity. Qed.
+
+  Lemma gsum_ext : forall {A} (f g : A -> M) l, (forall x, In x l -> f x = g x) -> gsum f l = gsum g l.
+  Proof. induction l; intros H; cbn [gsum]; [reflexivity|]. rewrite H, IHl; auto with datatypes. Qed.
+
+  Lemma gsum_filter : forall {A} (f : A -> M) (p : A -> bool) l,
+    gsum f (filter p l) = gsum (fun x => if p x then f x else e0) l.
+  Proof.
+    induction l; cbn [filter gsum]; [reflexivity|]. destruct (p a); cbn [gsum]; rewrite IHl; [reflexivity|].
+    rewrite op_e_l. reflexivity.
+  Qed.
+
+  Lemma gsum_if : forall {A} (b : bool) (f : A -> M) l,
+    gsum (fun x => if b then f x else e0) l = if b then gsum f l else e0.
+  Proof.
+    intros. destruct b; [reflexivity|]. induction l; cbn [gsum]; [reflexivity|]. rewrite IHl. apply op_e_l.
+  Qed.
+
+  Lemma op_swap : forall a b c, op (op a b) c = op (op a c) b.
+  Proof. intros. rewrite <- !op_assoc. f_equal. apply op_comm. Qed.
+
+  (* sum over all groups of the sum over their (w, sidx, tidx) entries *)
+  Definition gG (phi : gkey -> triple -> M) (l : list grp) : M := gsum (fun g => gsum (phi (gk g)) (gtriples g)) l.
+
+  Lemma gG_add_group : forall phi l key w s t, Forall aligned l ->
+    gG phi (add_group l key w s t) = op (gG phi l) (phi key (w, s, t)).
+  Proof.
+    unfold gG. induction l as [|g l IH]; intros key w s t H; cbn [add_group gsum].
+    - unfold gtriples. cbn [gk gw gs gt zip3 gsum]. rewrite op_e_l, !op_e_r. reflexivity.
+    - inversion H as [|? ? Hg Hl]; subst. destruct (gkey_eqb (gk g) key) eqn:E.
+      + apply gkey_eqb_eq in E. subst key. cbn [gsum gk]. unfold gtriples at 1. cbn [gw gs gt].
+        destruct Hg as [A B]. rewrite zip3_snoc by assumption. fold (gtriples g).
+        rewrite gsum_app. cbn [gsum]. rewrite op_e_r. apply op_swap.
+      + cbn [gsum]. rewrite IH by exact Hl. apply op_assoc.
+  Qed.
+
+  Lemma gG_fold : forall phi ix es l, Forall aligned l ->
+    gG phi (fold_left (group_step ix) es l) = op (gG phi l) (gsum (fun e => phi (ekey ix e) (etriple ix e)) es).
+  Proof.
+    induction es as [|e es IH]; intros l H; cbn [fold_left gsum]; [rewrite op_e_r; reflexivity|].
+    rewrite IH by (apply add_group_aligned; exact H). unfold group_step at 1.
+    rewrite gG_add_group by exact H. rewrite <- op_assoc. reflexivity.
+  Qed.
+
+  Lemma gG_group_edges : forall phi ix es,
+    gG phi (group_edges ix es) = gsum (fun e => phi (ekey ix e) (etriple ix e)) es.
+  Proof. intros. unfold group_edges. rewrite gG_fold by constructor. cbn [gG gsum]. apply op_e_l. Qed.
+
+  (* the same for the merged per-source lists *)
+  Definition gM (psi : nat -> triple -> M) (l : list mrg) : M := gsum (fun m => gsum (psi (msrc m)) (mtriples m)) l.
+
+  Lemma zip3_app : forall w1 s1 t1 w2 s2 t2, length w1 = length s1 -> length s1 = length t1 ->
+    zip3 (w1 ++ w2) (s1 ++ s2) (t1 ++ t2) = zip3 w1 s1 t1 ++ zip3 w2 s2 t2.
+  Proof.
+    induction w1 as [|a w1 IH]; intros [|b s1] [|c t1] w2 s2 t2 H1 H2; cbn in *; try discriminate; [reflexivity|].
+    f_equal. apply IH; lia.
+  Qed.
+
+  Lemma gM_add_merge : forall psi l g, Forall aligned_m l ->
+    gM psi (add_merge l g) = op (gM psi l) (gsum (psi (gsrc g)) (gtriples g)).
+  Proof.
+    unfold gM. induction l as [|m l IH]; intros g H; cbn [add_merge gsum].
+    - unfold mtriples. cbn [msrc mw ms mt]. fold (gtriples g). rewrite op_e_l, op_e_r. reflexivity.
+    - inversion H as [|? ? Hm Hl]; subst. destruct (Nat.eqb_spec (msrc m) (gsrc g)) as [E|E].
+      + cbn [gsum msrc]. unfold mtriples at 1. cbn [mw ms mt]. destruct Hm as [A B].
+        rewrite zip3_app by assumption. fold (mtriples m). fold (gtriples g). rewrite gsum_app. rewrite E. apply op_swap.
+      + cbn [gsum]. rewrite IH by exact Hl. apply op_assoc.
+  Qed.
+
+  Lemma add_merge_aligned : forall l g, Forall aligned_m l -> aligned g -> Forall aligned_m (add_merge l g).
+  Proof.
+    induction l as [|m l IH]; intros g H Hg; cbn [add_merge].
+    - constructor; [|constructor]. exact Hg.
+    - inversion H as [|? ? Hm Hl]; subst. destruct (msrc m =? gsrc g).
+      + constructor; [|exact Hl]. destruct Hm as [A B], Hg as [C D]. split; cbn [mw ms mt]; rewrite !app_length; lia.
+      + constructor; [exact Hm|apply IH; assumption].
+  Qed.
+
+  Lemma gM_fold : forall psi L l, Forall aligned_m l -> Forall aligned L ->
+    Forall aligned_m (fold_left add_merge L l) /\
+    gM psi (fold_left add_merge L l) = op (gM psi l) (gsum (fun g => gsum (psi (gsrc g)) (gtriples g)) L).
+  Proof.
+    induction L as [|g L IH]; intros l H HL; cbn [fold_left gsum]; [split; [exact H|rewrite op_e_r; reflexivity]|].
+    inversion HL as [|? ? Hg HL']; subst.
+    destruct (IH (add_merge l g) (add_merge_aligned l g H Hg) HL') as [A B]. split; [exact A|].
+    rewrite B, gM_add_merge by exact H. rewrite <- op_assoc. reflexivity.
+  Qed.
+End Monoid.
+
+Arguments gsum {M} op e0 {A} f l.
+
+(* ------------------------------------------------------------------------------------------ 10. facts needed to compose *)
+(* cache_func: the vector node a frontend node lands in carries the node's hash key *)
+Definition vkey (vn : list vnode) (j : nat) : nat := fst (nth j vn (0%nat, [])).
+
+Lemma extend_key : forall vn key n j0 vn' j a b,
+  extend vn key n j0 = (vn', (j, (a, b))) ->
+  (j - j0 < length vn')%nat /\ vkey vn' (j - j0) = key /\ (j0 <= j)%nat /\
+  (length vn <= length vn')%nat /\ (forall j', (j' < length vn)%nat -> vkey vn' j' = vkey vn j').
+Proof.
+  induction vn as [|[k l] rest IH]; intros key n j0 vn' j a b H; cbn [extend] in H.
+  - inversion H; subst. rewrite Nat.sub_diag. unfold vkey. cbn [length nth fst].
+    refine (conj _ (conj eq_refl (conj _ (conj _ _)))); try lia.
+  - destruct (Nat.eqb_spec k key) as [E|E].
+    + inversion H; subst. rewrite Nat.sub_diag. cbn [length]. unfold vkey. cbn [nth fst].
+      refine (conj _ (conj eq_refl (conj _ (conj _ _)))); try lia.
+      intros [|j'] _; reflexivity.
+    + destruct (extend rest key n (S j0)) as [rest' r] eqn:E2. inversion H; subst.
+      destruct (IH _ _ _ _ _ _ _ E2) as (A & B & C & D & F).
+      replace (j - j0)%nat with (S (j - S j0)) by lia. cbn [length]. unfold vkey in *. cbn [nth].
+      refine (conj _ (conj B (conj _ (conj _ _)))); try lia.
+      intros [|j'] Hj; [reflexivity|]. cbn [nth]. apply F. cbn in Hj. lia.
+Qed.
+
+Lemma cache_all_key : forall ks vn n0 vn' rs, cache_all vn ks n0 = (vn', rs) ->
+  (length vn <= length vn')%nat /\ (forall j', (j' < length vn)%nat -> vkey vn' j' = vkey vn j') /\
+  forall m, (m < length ks)%nat -> vkey vn' (fst (nth m rs rng_default)) = nth m ks 0%nat.
+Proof.
+  induction ks as [|key ks IH]; intros vn n0 vn' rs H; cbn [cache_all] in H.
+  - inversion H; subst. repeat split; auto. intros; cbn in *; lia.
+  - destruct (extend vn key n0 0) as [vn1 r] eqn:E1.
+    destruct (cache_all vn1 ks (S n0)) as [vn2 rs2] eqn:E2. inversion H; subst.
+    destruct r as [j [a b]]. destruct (extend_key _ _ _ _ _ _ _ _ E1) as (A & B & _ & D & F).
+    rewrite Nat.sub_0_r in A, B. destruct (IH _ _ _ _ E2) as (D2 & F2 & G2).
+    refine (conj _ (conj _ _)).
+    + lia.
+    + intros j' Hj. rewrite F2 by lia. apply F. exact Hj.
+    + intros [|m] Hm; cbn [nth fst].
+      * rewrite F2 by exact A. exact B.
+      * apply G2. cbn in Hm. lia.
+Qed.
+
+Lemma same_vector_same_key : forall ks vn rs n1 n2, cache_all [] ks 0 = (vn, rs) ->
+  (n1 < length ks)%nat -> (n2 < length ks)%nat -> fst (idx_of rs n1) = fst (idx_of rs n2) ->
+  nth n1 ks 0%nat = nth n2 ks 0%nat.
+Proof.
+  intros ks vn rs n1 n2 H H1 H2 E. destruct (cache_all_key _ _ _ _ _ H) as (_ & _ & G).
+  rewrite <- (G n1 H1), <- (G n2 H2). unfold idx_of in E. cbn [fst] in E. fold rng_default in E. rewrite E. reflexivity.
+Qed.
+
+Lemma same_vector_same_class : forall vec c vn rs n1 n2, cache_all [] (keys vec c) 0 = (vn, rs) ->
+  (n1 < length (cnodes c))%nat -> (n2 < length (cnodes c))%nat -> fst (idx_of rs n1) = fst (idx_of rs n2) ->
+  cls_of c n1 = cls_of c n2.
+Proof.
+  intros vec c vn rs n1 n2 H H1 H2 E.
+  assert (L : length (keys vec c) = length (cnodes c)) by (unfold keys; destruct vec; [apply map_length|apply seq_length]).
+  pose proof (same_vector_same_key _ _ _ n1 n2 H ltac:(lia) ltac:(lia) E) as K.
+  unfold keys in K. destruct vec.
+  - change 0%nat with (ncls dnode) in K. rewrite !map_nth in K. exact K.
+  - rewrite !seq_nth in K by assumption. cbn in K. subst. reflexivity.
+Qed.
+
+(* every group of _group_edges carries the key of one of the edges *)
+Lemma add_group_keys : forall (Q : gkey -> Prop) l key w s t, Forall (fun g => Q (gk g)) l -> Q key ->
+  Forall (fun g => Q (gk g)) (add_group l key w s t).
+Proof.
+  induction l as [|g l IH]; intros key w s t H Hk; cbn [add_group].
+  - constructor; [exact Hk|constructor].
+  - inversion H as [|? ? Hg Hl]; subst. destruct (gkey_eqb (gk g) key).
+    + constructor; [exact Hg|exact Hl].
+    + constructor; [exact Hg|apply IH; assumption].
+Qed.
+
+Lemma group_keys_from_edges : forall ix all es l, (forall e, In e es -> In e all) ->
+  Forall (fun g => exists e, In e all /\ ekey ix e = gk g) l ->
+  Forall (fun g => exists e, In e all /\ ekey ix e = gk g) (fold_left (group_step ix) es l).
+Proof.
+  induction es as [|e es IH]; intros l Hs H; cbn [fold_left]; [exact H|].
+  apply IH; [intros; apply Hs; right; assumption|]. unfold group_step.
+  apply (add_group_keys (fun k => exists e0, In e0 all /\ ekey ix e0 = k)); [exact H|].
+  exists e. split; [apply Hs; left; reflexivity|reflexivity].
+Qed.
+
+(* _collect_from_edges keeps the source variable of the first group of a source: harmless when all groups of that
+   source agree on it *)
+Lemma add_merge_sv : forall (svf : nat -> bool) l g, Forall (fun m => msv m = svf (msrc m)) l -> gsv g = svf (gsrc g) ->
+  Forall (fun m => msv m = svf (msrc m)) (add_merge l g).
+Proof.
+  induction l as [|m l IH]; intros g H Hg; cbn [add_merge].
+  - constructor; [exact Hg|constructor].
+  - inversion H as [|? ? Hm Hl]; subst. destruct (msrc m =? gsrc g).
+    + constructor; [exact Hm|exact Hl].
+    + constructor; [exact Hm|apply IH; assumption].
+Qed.
+
+Lemma merge_fold_sv : forall (svf : nat -> bool) L l, Forall (fun m => msv m = svf (msrc m)) l ->
+  Forall (fun g => gsv g = svf (gsrc g)) L -> Forall (fun m => msv m = svf (msrc m)) (fold_left add_merge L l).
+Proof.
+  induction L as [|g L IH]; intros l H HL; cbn [fold_left]; [exact H|].
+  inversion HL; subst. apply IH; [apply add_merge_sv; assumption|assumption].
+Qed.
+
+(* instances: (Qc, +, 0) and (bool, ||, false) *)
+Definition qG {A} := @gsum Qc Qcplus 0 A.
+Definition bG {A} := @gsum bool orb false A.
+Lemma Qcplus_assoc' : forall a b c : Qc, a + (b + c) = (a + b) + c. Proof. intros; ring. Qed.
+Lemma Qcplus_comm' : forall a b : Qc, a + b = b + a. Proof. intros; ring. Qed.
+Lemma Qcplus_0_l' : forall a : Qc, 0 + a = a. Proof. intros; ring. Qed.
+Lemma orb_assoc' : forall a b c, a || (b || c) = (a || b) || c. Proof. intros [] [] []; reflexivity. Qed.
+Lemma orb_comm' : forall a b, a || b = b || a. Proof. intros [] []; reflexivity. Qed.
+Lemma orb_false_l' : forall a, false || a = a. Proof. reflexivity. Qed.
+
+Definition tval (u : nat) (sval : nat -> Qc) (tr : triple) : Qc := let '(w, s, t) := tr in if t =? u then w * sval s else 0.
+Definition thit (u : nat) (tr : triple) : bool := snd tr =? u.
+
+Lemma tsum_gsum : forall tr sval u, tsum tr sval u = qG (tval u sval) tr.
+Proof. induction tr as [|[[w s] t] tr IH]; intros; cbn [tsum qG gsum tval]; [reflexivity|]. rewrite IH. reflexivity. Qed.
+
+Lemma mem_gsum : forall u tr, mem u (targets tr) = bG (thit u) tr.
+Proof.
+  induction tr as [|[[w s] t] tr IH]; cbn [targets map mem bG gsum thit snd]; [reflexivity|].
+  fold (targets tr). rewrite IH, (Nat.eqb_sym u t). reflexivity.
+Qed.
+
+Lemma existsb_gsum : forall {A} (p : A -> bool) l, existsb p l = bG p l.
+Proof. induction l; cbn [existsb bG gsum]; [reflexivity|]. rewrite IHl. reflexivity. Qed.
+
+Lemma qsum_map_gsum : forall {A} (f : A -> Qc) l, qsum (map f l) = qG f l.
+Proof. induction l; cbn [map qsum qG gsum]; [reflexivity|]. rewrite IHl. reflexivity. Qed.
+
+Lemma existsb_filter_nil : forall {A} (p : A -> bool) l, existsb p l = false -> filter p l = [].
+Proof.
+  induction l; cbn [existsb filter]; intros H; [reflexivity|]. apply orb_false_iff in H as [H1 H2].
+  rewrite H1. apply IHl. exact H2.
+Qed.
+
+Lemma spec_input_alt : forall c st u,
+  spec_input c st u = if existsb (into u) (cedges c) then qsum (map (edge_term c st) (filter (into u) (cedges c)))
+                      else crdef (node_cls c u).
+Proof.
+  intros. unfold spec_input. destruct (existsb (into u) (cedges c)) eqn:E.
+  - destruct (filter (into u) (cedges c)) eqn:F; [|reflexivity].
+    apply existsb_exists in E as (e & He & Hp). assert (In e (filter (into u) (cedges c))) by (apply filter_In; auto).
+    rewrite F in H. inversion H.
+  - rewrite existsb_filter_nil by exact E. reflexivity.
+Qed.
+
+Lemma all_some_nth : forall {A B} (f : A -> option B) l r d d', all_some (map f l) = Some r ->
+  forall k, (k < length l)%nat -> f (nth k l d) = Some (nth k r d').
+Proof.
+  induction l as [|a l IH]; intros r d d' H k Hk; [cbn in Hk; lia|].
+  cbn [map] in H. apply all_some_cons in H as (b & r' & H1 & H2 & ->).
+  destruct k; cbn [nth]; [exact H1|]. apply IH; [exact H2|cbn in Hk; lia].
+Qed.
+
+Lemma nth_map_seq : forall {A} (g : nat -> A) len i d, (i < len)%nat -> nth i (map g (seq 0 len)) d = g i.
+Proof.
+  intros. rewrite (nth_indep _ d (g 0%nat)) by (rewrite map_length, seq_length; exact H).
+  rewrite map_nth. rewrite seq_nth by exact H. reflexivity.
+Qed.
+
+(* ------------------------------------------------------------------------------------------ 11. the composition *)
+Lemma wf_edges : forall c e, wf c = true -> In e (cedges c) ->
+  (esrc e < length (cnodes c))%nat /\ (etgt e < length (cnodes c))%nat.
+Proof.
+  intros c e W H. unfold wf in W. apply andb_true_iff in W as [_ W].
+  rewrite forallb_forall in W. specialize (W e H). apply andb_true_iff in W as [W _].
+  apply andb_true_iff in W as [A B]. apply Nat.ltb_lt in A, B. split; assumption.
+Qed.
+
+Lemma ssv_edges : forall c e1 e2, single_source_var c = true -> In e1 (cedges c) -> In e2 (cedges c) ->
+  cls_of c (esrc e1) = cls_of c (esrc e2) -> cls_of c (etgt e1) = cls_of c (etgt e2) -> esv e1 = esv e2.
+Proof.
+  intros c e1 e2 S H1 H2 A B. unfold single_source_var in S. rewrite forallb_forall in S.
+  specialize (S e1 H1). rewrite forallb_forall in S. specialize (S e2 H2).
+  rewrite A, B, !Nat.eqb_refl in S. cbn in S. apply eqb_prop. exact S.
+Qed.
+
+Section Compose.
+  Variable vec : bool.
+  Variable c : circuit.
+  Variable st : list Qc.
+  Variable vn : list vnode.
+  Variable rs : list (nat * (nat * nat)).
+  Hypothesis CA : cache_all [] (keys vec c) 0 = (vn, rs).
+  Hypothesis WF : wf c = true.
+  Hypothesis SSV : single_source_var c = true.
+
+  Let ix := idx_of rs.
+  Let es := cedges c.
+
+  Lemma keys_length : length (keys vec c) = length (cnodes c).
+  Proof. unfold keys. destruct vec; [apply map_length|apply seq_length]. Qed.
+
+  Lemma F_mem : forall n, (n < length (cnodes c))%nat ->
+    (snd (ix n) < length (members vn (fst (ix n))))%nat /\ nth (snd (ix n)) (members vn (fst (ix n))) 0%nat = n.
+  Proof. intros n H. apply (member_at_index _ _ _ _ CA). rewrite keys_length. exact H. Qed.
+
+  Lemma F_inj : forall n1 n2, (n1 < length (cnodes c))%nat -> (n2 < length (cnodes c))%nat -> ix n1 = ix n2 -> n1 = n2.
+  Proof. intros n1 n2 H1 H2. apply (index_map_injective _ _ _ _ _ CA); rewrite keys_length; assumption. Qed.
+
+  Variable n : nat.
+  Hypothesis Hn : (n < length (cnodes c))%nat.
+  Let j := fst (ix n).
+  Let i := snd (ix n).
+  Let groups := group_edges ix es.
+  Let L := filter (fun g => gtgt g =? j) groups.
+  Let ml := merged j groups.
+
+  Definition svf (sj : nat) : bool :=
+    match find (fun e => (fst (ix (esrc e)) =? sj) && (fst (ix (etgt e)) =? j)) es with Some e => esv e | None => false end.
+
+  Lemma tgt_match : forall e, In e es ->
+    ((fst (ix (etgt e)) =? j) && (snd (ix (etgt e)) =? i)) = (etgt e =? n).
+  Proof.
+    intros e He. destruct (wf_edges c e WF He) as [_ Ht].
+    destruct (Nat.eqb_spec (etgt e) n) as [->|Hne].
+    - subst j i. rewrite !Nat.eqb_refl. reflexivity.
+    - apply andb_false_iff.
+      destruct (Nat.eqb_spec (fst (ix (etgt e))) j) as [A|A]; [|left; reflexivity].
+      destruct (Nat.eqb_spec (snd (ix (etgt e))) i) as [B|B]; [|right; reflexivity].
+      exfalso. apply Hne. apply F_inj; try assumption. subst j i.
+      destruct (ix (etgt e)), (ix n). cbn in *. congruence.
+  Qed.
+
+  Lemma L_aligned : Forall aligned L.
+  Proof.
+    apply Forall_forall. intros g Hg. apply filter_In in Hg as [Hg _].
+    pose proof (group_edges_aligned ix es) as A. rewrite Forall_forall in A. apply A. exact Hg.
+  Qed.
+
+  Lemma L_sv : Forall (fun g => gsv g = svf (gsrc g)) L.
+  Proof.
+    apply Forall_forall. intros g Hg. apply filter_In in Hg as [Hg Hj]. apply Nat.eqb_eq in Hj.
+    pose proof (group_keys_from_edges ix es es [] (fun e H => H) (Forall_nil _)) as K.
+    rewrite Forall_forall in K. destruct (K g Hg) as (e & He & Ek).
+    assert (S1 : gsrc g = fst (ix (esrc e))) by (unfold gsrc; rewrite <- Ek; reflexivity).
+    assert (S2 : gsv g = esv e) by (unfold gsv; rewrite <- Ek; reflexivity).
+    assert (S3 : fst (ix (etgt e)) = j) by (unfold gtgt in Hj; rewrite <- Ek in Hj; exact Hj).
+    unfold svf. destruct (find _ es) as [e'|] eqn:F.
+    - apply find_some in F as [He' P]. apply andb_true_iff in P as [P1 P2]. apply Nat.eqb_eq in P1, P2.
+      rewrite S2. destruct (wf_edges c e WF He) as [A1 A2]. destruct (wf_edges c e' WF He') as [B1 B2].
+      apply (ssv_edges c e e' SSV He He').
+      + apply (same_vector_same_class vec c vn rs _ _ CA A1 B1). fold ix. congruence.
+      + apply (same_vector_same_class vec c vn rs _ _ CA A2 B2). fold ix. congruence.
+    - exfalso. pose proof (find_none _ _ F e He) as P. cbn beta in P.
+      rewrite S1, S3, !Nat.eqb_refl in P. discriminate.
+  Qed.
+
+  Lemma ml_facts : Forall aligned_m ml /\ Forall (fun m => msv m = svf (msrc m)) ml.
+  Proof.
+    split.
+    - apply (gM_fold bool orb false orb_assoc' orb_comm' orb_false_l' (fun _ _ => false) L [] (Forall_nil _) L_aligned).
+    - apply merge_fold_sv; [constructor|apply L_sv].
+  Qed.
+
+  Definition ssize_of (m : mrg) : nat := length (members vn (msrc m)).
+  Definition sval_of (m : mrg) (s : nat) : Qc := srcval c st (nth s (members vn (msrc m)) 0%nat) (msv m).
+
+  Lemma hits_into : existsb (hits i) ml = existsb (into n) es.
+  Proof.
+    destruct ml_facts as [MA _].
+    rewrite !existsb_gsum. unfold bG.
+    transitivity (gM bool orb false (fun _ => thit i) ml).
+    { unfold gM. apply gsum_ext. intros m Hm. rewrite Forall_forall in MA. specialize (MA m Hm).
+      unfold hits. rewrite <- mem_gsum. unfold mtriples. rewrite zip3_targets by apply MA. reflexivity. }
+    destruct (gM_fold bool orb false orb_assoc' orb_comm' orb_false_l' (fun _ => thit i) L [] (Forall_nil _) L_aligned) as [_ E].
+    change ml with (fold_left add_merge L []). rewrite E. cbn [gM gsum orb]. unfold L.
+    rewrite (gsum_filter bool orb false orb_false_l').
+    transitivity (gG bool orb false (fun key tr => if snd key =? j then thit i tr else false) groups).
+    { unfold gG. apply gsum_ext. intros g _. rewrite (gsum_if bool orb false orb_false_l'). reflexivity. }
+    unfold groups. rewrite (gG_group_edges bool orb false orb_assoc' orb_comm' orb_false_l').
+    apply gsum_ext. intros e He. unfold ekey, etriple, thit, into. cbn [snd].
+    rewrite <- (tgt_match e He). destruct (fst (ix (etgt e)) =? j); reflexivity.
+  Qed.
+
+  Lemma msum_spec : msum ml sval_of i = qsum (map (edge_term c st) (filter (into n) es)).
+  Proof.
+    destruct ml_facts as [MA MS].
+    pose (psi := fun sj => tval i (fun s => srcval c st (nth s (members vn sj) 0%nat) (svf sj))).
+    transitivity (gM Qc Qcplus 0 psi ml).
+    { unfold gM. clear MA. induction ml as [|m l IH]; cbn [msum gsum]; [reflexivity|].
+      inversion MS as [|? ? Hm Hl]; subst. rewrite IH by exact Hl. f_equal.
+      rewrite tsum_gsum. unfold qG, psi, sval_of. rewrite Hm. reflexivity. }
+    destruct (gM_fold Qc Qcplus 0 Qcplus_assoc' Qcplus_comm' Qcplus_0_l' psi L [] (Forall_nil _) L_aligned) as [_ E].
+    change ml with (fold_left add_merge L []). rewrite E. cbn [gM gsum]. rewrite Qcplus_0_l'.
+    pose (phi := fun (key : gkey) => tval i (fun s => srcval c st (nth s (members vn (fst (fst key))) 0%nat) (snd (fst key)))).
+    transitivity (gsum Qcplus 0 (fun g => gsum Qcplus 0 (phi (gk g)) (gtriples g)) L).
+    { apply gsum_ext. intros g Hg. pose proof L_sv as SV. rewrite Forall_forall in SV. specialize (SV g Hg).
+      unfold psi, phi. unfold gsv, gsrc in SV. unfold gsrc. rewrite <- SV. reflexivity. }
+    unfold L. rewrite (gsum_filter Qc Qcplus 0 Qcplus_0_l').
+    transitivity (gG Qc Qcplus 0 (fun key tr => if snd key =? j then phi key tr else 0) groups).
+    { unfold gG. apply gsum_ext. intros g _. rewrite (gsum_if Qc Qcplus 0 Qcplus_0_l'). reflexivity. }
+    unfold groups. rewrite (gG_group_edges Qc Qcplus 0 Qcplus_assoc' Qcplus_comm' Qcplus_0_l').
+    rewrite qsum_map_gsum. unfold qG. rewrite (gsum_filter Qc Qcplus 0 Qcplus_0_l').
+    apply gsum_ext. intros e He. unfold ekey, etriple, phi, tval, into, edge_term. cbn [fst snd].
+    rewrite <- (tgt_match e He). destruct (wf_edges c e WF He) as [Hs _].
+    destruct (F_mem (esrc e) Hs) as [_ Hm]. fold ix in Hm. rewrite Hm.
+    destruct (fst (ix (etgt e)) =? j); [|reflexivity]. cbn [andb]. reflexivity.
+  Qed.
+
+  Lemma node_input : forall tsize cs,
+    all_some (map (fun m => contrib tsize (ssize_of m) m (sval_of m)) ml) = Some cs ->
+    input_of cs (crdef (node_cls c n)) i = spec_input c st n.
+  Proof.
+    intros tsize cs H. destruct ml_facts as [MA _].
+    rewrite (input_is_edge_sum tsize ssize_of sval_of ml cs _ i MA H).
+    rewrite spec_input_alt. fold es. rewrite hits_into, msum_spec. reflexivity.
+  Qed.
+End Compose.
+
+(* Whenever the compilation modelled by Impl does not raise, it computes the vector field of the edge list — for every
+   circuit whose class pairs each use a single source variable (D3 excluded), vectorized or not, any number of classes,
+   units and edges, parallel edges, self-connections, weightless edges, any order of the nodes and edges. *)
+Theorem impl_sound : forall vec c st r, wf c = true -> single_source_var c = true ->
+  impl vec c st = Some r -> r = spec c st.
+Proof.
+  intros vec c st r WF SSV H. unfold impl, impl_gen, compile in H.
+  destruct (cache_all [] (keys vec c) 0) as [vn rs] eqn:CA. cbn [cvn cidx cgroups] in H.
+  destruct (existsb (vn_err c) vn); [discriminate|].
+  destruct (all_some _) as [rv|] eqn:AS in H; [|discriminate]. inversion H; subst r. clear H.
+  unfold spec. apply map_ext_in. intros n Hn. apply in_seq in Hn. destruct Hn as [_ Hn]. cbn in Hn.
+  destruct (F_mem vec c vn rs CA n Hn) as [Hi Hm].
+  destruct (idx_of rs n) as [j i] eqn:IX. cbn [fst snd] in Hi, Hm. f_equal.
+  assert (Hj : (j < length vn)%nat).
+  { destruct (Nat.lt_ge_cases j (length vn)) as [A|A]; [exact A|].
+    unfold members in Hi. rewrite nth_overflow in Hi by exact A. cbn in Hi. lia. }
+  pose proof (all_some_nth _ _ _ 0%nat (@nil Qc) AS j ltac:(rewrite seq_length; exact Hj)) as V.
+  rewrite seq_nth in V by exact Hj. cbn [plus] in V. unfold vn_inputs_gen in V. cbn [cvn cgroups] in V.
+  destruct (all_some _) as [cs|] eqn:AC in V; [|discriminate]. inversion V as [V']. clear V.
+  pose proof IX as IX2. unfold idx_of in IX2. injection IX2 as Ej Ei. rewrite Ej, Ei. rewrite <- V'.
+  rewrite nth_map_seq by exact Hi. rewrite Hm.
+  pose proof (node_input vec c st vn rs CA WF SSV n Hn) as NI. rewrite IX in NI. cbn [fst snd] in NI.
+  eapply NI. exact AC.
+Qed.
+
+(* vectorize=True and vectorize=False give the same vector field whenever neither raises *)
+Theorem vec_equals_nonvec : forall c st r1 r2, wf c = true -> single_source_var c = true ->
+  impl true c st = Some r1 -> impl false c st = Some r2 -> r1 = r2.
+Proof.
+  intros c st r1 r2 W S H1 H2. rewrite (impl_sound _ _ _ _ W S H1), (impl_sound _ _ _ _ W S H2). reflexivity.
+Qed.
+
+(* THE GAP that remains for the end-to-end statement: the two loud classes are excluded by their guards.
+   (D21: a vector node has > 1 members iff its class has > 1 nodes; D32: ssize = 1, no repeated target index and >= 10
+   merged edges iff the frontend condition of no_scalar_fanout fails — needs a pigeonhole argument on the target indices
+   and the converse of same_vector_same_class.)  Not mechanised; every generated circuit inside the guards is checked
+   against it by the correspondence run (Impl = Some .. there). *)
+Definition no_err_statement : Prop := forall vec c st, wf c = true -> no_constant_rhs c = true ->
+  no_scalar_fanout c = true -> impl vec c st <> None.
+
+Theorem guarded_from_no_err : no_err_statement -> guarded_statement.
+Proof.
+  intros NE c st W G _. unfold guard in G. apply andb_true_iff in G as [G G3]. apply andb_true_iff in G as [G1 G2].
+  split.
+  - destruct (impl true c st) as [r|] eqn:E; [rewrite (impl_sound _ _ _ _ W G2 E); reflexivity|].
+    exfalso. exact (NE true c st W G1 G3 E).
+  - destruct (impl false c st) as [r|] eqn:E; [rewrite (impl_sound _ _ _ _ W G2 E); reflexivity|].
+    exfalso. exact (NE false c st W G1 G3 E).
+Qed.
